@@ -186,8 +186,8 @@ Proof.
   apply andb_true_iff in Hw as [Hw1 Hw2]. apply Nat.leb_le in H1, H2, Hw1.
   assert (HL : len (render_cells bg fs cs) = len bg) by (apply (len_render_cells bg (fstop f) w); auto).
   cbn [render_cells combine map]. unfold parse_record, parse_record_by. cbn [map]. f_equal.
-  - cbn [fst snd]. f_equal. f_equal.
-    replace (fstop f) with (fstart f + len c) by lia. apply slice_place_same. lia.
+  - cbn [fst snd]. f_equal. fold strip.
+    replace (fstop f) with (fstart f + len c) by lia. rewrite slice_place_same by lia. reflexivity.
   - rewrite <- (IH _ H3 Hw2). apply (parse_record_by_ext is_space). intros g Hg. f_equal.
     destruct (table_wf_from_start _ _ g H3 Hg). apply slice_place_after; lia.
 Qed.
